@@ -29,12 +29,13 @@ THEOREMS = {
     },
     "C06": {
         "modules": ["Abnf.Theorems.C06"],
-        "theorems": ["Abnf.C06.core_exact", "Abnf.C06.charClass_is_exact", "Abnf.Obl.C06.core_ok", "Abnf.charClass_sound", "Abnf.ivs_ext"],
+        "theorems": ["Abnf.C06.core_exact", "Abnf.C06.charClass_is_exact", "Abnf.Obl.C06.core_ok", "Abnf.charClass_sound", "Abnf.ivs_ext",
+                     "Abnf.C06.pairs_cover", "Abnf.C06.equiv_ok", "Abnf.C06.core_equiv_rfc", "Abnf.C06.core_engine_exact_wrt_rfc", "Abnf.sub_sound"],
     },
     "C08": {
         "modules": ["Abnf.Theorems.C08"],
         "theorems": ["Abnf.C08.request_transparent", "Abnf.C08.cache_transparent", "Abnf.C08.fresh_caches_sound",
-                     "Abnf.lparseC_sand", "Abnf.lparse_mono", "Abnf.lruOps_sound'"],
+                     "Abnf.lparseC_sand", "Abnf.lparse_mono", "Abnf.lruOps_sound'", "Abnf.C08.cache_transparent_total"],
     },
     "C11": {
         "modules": ["Abnf.Theorems.C11"],
@@ -72,7 +73,10 @@ THEOREMS = {
     "C05": {
         "modules": ["Abnf.Theorems.C05"],
         "theorems": ["Abnf.C05.reader_total_and_exact", "Abnf.C05.reference_total_and_exact", "Abnf.Obl.Meta.meta_wf",
-                     "Abnf.Obl.Meta.meta_plain", "Abnf.C05.rfc_wf", "Abnf.C05.rfc_plain", "Abnf.wfCheck_sound"],
+                     "Abnf.Obl.Meta.meta_plain", "Abnf.C05.rfc_wf", "Abnf.C05.rfc_plain", "Abnf.wfCheck_sound",
+                     "Abnf.sub_sound", "Abnf.equiv_pairs", "Abnf.C05.equiv_ok", "Abnf.C05.pairs_cover_reader", "Abnf.C05.pairs_same_name",
+                     "Abnf.C05.pairs_cover_rfc_section4", "Abnf.C05.reader_equiv_rfc", "Abnf.C05.reader_exact_wrt_rfc",
+                     "Abnf.Obl.Meta.meta_closed", "Abnf.accepts_iff_derivable_on", "Abnf.C05.accepted_iff_abnf"],
     },
     "C09": {
         "modules": ["Abnf.Theorems.C09", "Abnf.Theorems.C11"],
@@ -81,12 +85,17 @@ THEOREMS = {
                      "Abnf.wfFast_sound", "Abnf.closedFast_sound", "Abnf.C11.first_match"],
     },
     "C15": {
-        "modules": ["Abnf.Theorems.C05", "Abnf.Theorems.C09"],
-        "theorems": ["Abnf.C05.reader_total_and_exact", "Abnf.C09.bundled_rule_total_and_sound"],
+        "modules": ["Abnf.Theorems.C15", "Abnf.Theorems.C09"],
+        "theorems": ["Abnf.C05.reader_total_and_exact", "Abnf.C09.bundled_rule_total_and_sound", "Abnf.sub_sound", "Abnf.equiv_pairs",
+                     "Abnf.C15.seeds_7405", "Abnf.C15.equiv_ok_7405", "Abnf.C15.reader_equiv_rfc7405", "Abnf.C15.seeds_5234",
+                     "Abnf.C15.equiv_ok_5234", "Abnf.C15.reader_equiv_rfc5234", "Abnf.C15.rfc7405_is_rfc",
+                     "Abnf.lparse_complete_on", "Abnf.plainOnG_sound", "Abnf.C15.reach_plain_7405", "Abnf.C15.accepted_alike_rfc7405"],
     },
     "C19": {
-        "modules": ["Abnf.Theorems.C09", "Abnf.Theorems.C01"],
-        "theorems": ["Abnf.C09.bundled_rule_total_and_sound", "Abnf.C01.ends_iff_derivable"],
+        "modules": ["Abnf.Theorems.C19", "Abnf.Theorems.C09", "Abnf.Theorems.C01"],
+        "theorems": ["Abnf.C09.bundled_rule_total_and_sound", "Abnf.C01.ends_iff_derivable", "Abnf.sub_sound", "Abnf.equiv_pairs",
+                     "Abnf.C19.seeds_ok", "Abnf.C19.equiv_ok", "Abnf.C19.shared_constructs_equal", "Abnf.C19.shared_constructs_accept_same",
+                     "Abnf.lparse_complete_on", "Abnf.plainOnG_sound", "Abnf.C19.reach_plain", "Abnf.C19.shared_constructs_accepted_alike"],
     },
     "C16": {
         "modules": ["Abnf.Theorems.C16"],
